@@ -13,6 +13,11 @@ LAYOUT = [
     ("impl", "impl<'a> SimpleCycle2Iterator<'a>", [("simple_cycle.rs", "SimpleCycle2Iterator::next@Iterator")]),
     ("struct", "voronoi/convex_cell.rs", "Vertex"), ("text", "text after_vertex"),
     ("impl", "impl VxConvexCell", [("voronoi/convex_cell.rs", "ConvexCell::compute_boundary")]),
+    # the block `if num_r > 0 { .. }` of clip_by_plane as a W16 slice: new plane, boundary, one new vertex per boundary edge
+    ("struct_keep", "voronoi/convex_cell.rs", "ConvexCell", "VxClipCell", ["loc", "clipping_planes", "vertices", "boundary", "safety_radius"]),
+    ("text", "text tail_prelude"),
+    ("slice_fn", "voronoi/convex_cell.rs", "ConvexCell::clip_by_plane", "clip_tail", "let p_idx"),
+    ("text", "text tail_close"),
 ]
 # verus function -> obligation label
 FNS = {
@@ -23,6 +28,10 @@ FNS = {
     "try_extend": "SimpleCycle_try_extend.equals_functional_spec_err_leaves_state_unchanged",
     "next": "SimpleCycle2Iterator_next.contract",
     "compute_boundary": "compute_boundary.permutes_vertices_keeps_single_cycle_chain_is_sum_of_triangle_boundaries",
+    "clip_tail": "clip_by_plane_tail.new_plane_appended_kept_vertices_untouched_one_new_vertex_per_boundary_edge_cell_invariant_kept",
+    "lemma_push_preserves_wf": "lemma.grow_slot_preserves_single_cycle",
+    "vx_take": "std_take.constructor",
+    "lemma_orbit_len_le_capacity": "lemma.cycle_has_at_most_as_many_nodes_as_slots",
     "lemma_rotation_invariant": "lemma.try_extend_invariant_under_rotation_of_the_triple",
     "lemma_chain_additive": "lemma.extension_adds_triangle_boundary_to_chain",
     "lemma_bd_rotation": "lemma.boundary_operator_rotation_invariant",
@@ -84,6 +93,38 @@ def grow_probe(total=200):
     return len(reqs), None
 
 
+def closed_polytope_probe(seed=0):
+    """'the result is again a closed polytope with three planes per vertex', on real cells from ConvexCell::build (public API), including
+    cells in which ONE clip removes a lid of 12..48 vertices (a ring of neighbours plus one neighbour above it: long boundary cycles):
+    every vertex has three distinct planes and every edge (pair of planes meeting in a vertex) is shared by exactly two vertices."""
+    import math
+    from ..runner import replay_requests
+    rng = random.Random(seed)
+    reqs = []
+    for ring in (12, 24, 33, 40, 48):
+        c = [0.5, 0.5, 0.5]
+        gens = [c] + [[0.5 + 0.3 * math.cos(2 * math.pi * (k + 0.37) / ring), 0.5 + 0.3 * math.sin(2 * math.pi * (k + 0.37) / ring), 0.5] for k in range(ring)]
+        gens.append([0.5, 0.5, 0.5 + 0.33]); gens.append([0.5, 0.5, 0.5 - 0.36])
+        reqs.append({"op": "cell_duals", "gens": gens, "anchor": [0, 0, 0], "width": [1, 1, 1], "periodic": False, "_what": "ring of %d + lid" % ring})
+    for k in range(6):
+        gens = [[rng.random(), rng.random(), rng.random()] for _ in range(30)]
+        reqs.append({"op": "cell_duals", "gens": gens, "anchor": [0, 0, 0], "width": [1, 1, 1], "periodic": bool(k % 2), "_what": "30 random generators"})
+    cells = 0
+    for rq, a in zip(reqs, replay_requests(reqs, timeout=600)):
+        rq = {k: v for k, v in rq.items() if k != "_what"}
+        if "cells" not in a: return cells, {"request": rq, "real": a, "what": "construction panics"}
+        for c in a["cells"]:
+            cells += 1
+            edges = {}
+            for d in c["duals"]:
+                if len(set(d)) != 3 or max(d) >= c["n_planes"]: return cells, {"request": rq, "cell": c["idx"], "vertex_dual": d, "what": "vertex without three distinct planes"}
+                for e in ((d[0], d[1]), (d[1], d[2]), (d[2], d[0])): edges[frozenset(e)] = edges.get(frozenset(e), 0) + 1
+            odd = [sorted(e) for e, k in edges.items() if k != 2]
+            if odd: return cells, {"request": rq, "cell": c["idx"], "n_vertices": len(c["duals"]), "edges_not_shared_by_exactly_two_vertices": odd[:6],
+                                   "what": "cell is not a closed polytope with three planes per vertex"}
+    return cells, None
+
+
 def bounded_search(n=6, max_states=400, seed=0):
     """Reachable states of the real SimpleCycle on n labels (BFS over op sequences), every triple tried from each:
     real try_extend/init vs the functional specification. Returns (cases, first mismatch or None)."""
@@ -131,12 +172,29 @@ def bounded_search(n=6, max_states=400, seed=0):
 
 
 def run(tier, seed):
-    text, slices, spec = verus.assemble(SPEC, LAYOUT)
+    tail_lost = None
+    try:
+        text, slices, spec = verus.assemble(SPEC, LAYOUT)
+    except extract.Undecided as e:
+        # the annotated shape of one unit no longer fits the source: that unit is undecided (never an alarm); the other units are still
+        # verified, and the bounded stand-ins below still run against the real code
+        n_tail = 4
+        try:
+            text, slices, spec = verus.assemble(SPEC, LAYOUT[:-n_tail])
+        except extract.Undecided:
+            raise e
+        tail_lost = str(e)
     r = verus.run("c18", text, timeout=300 if tier == "quick" else 900,
                   extra=(["--rlimit", "50"] if tier == "thorough" else []))
     fns = dict(FNS)
     fns["witness_contracts_are_satisfiable"] = "witness.contracts_are_satisfiable"
+    TAIL_FNS = ("clip_tail", "lemma_push_preserves_wf", "vx_take", "lemma_orbit_len_le_capacity")
+    if tail_lost:
+        for k_ in TAIL_FNS: fns.pop(k_, None)
     results = verus.results_per_function("C18", r, text, fns, UNIT)
+    if tail_lost:
+        for k_ in TAIL_FNS:
+            if k_ in FNS: results.append(Result("C18." + FNS[k_], "E1", "undecided", 0.0, "verus", "unit not assembled: " + tail_lost, UNIT))
     for x in results:   # vacuity guard
         if x.name.endswith("witness.contracts_are_satisfiable"):
             x.backend = "guard"
@@ -151,6 +209,15 @@ def run(tier, seed):
             if x.status == "refuted":
                 x.counterexample = bad
                 x.replay = {"reproduced": bad is not None, "search": "all triples from %d reachable states on 6 labels" % cases, "mismatch": bad}
+    pc, pbad = closed_polytope_probe(seed)
+    for x in results:
+        if "clip_by_plane_tail" in x.name and x.status == "refuted":
+            x.counterexample = pbad
+            x.replay = {"reproduced": pbad is not None, "search": "%d real cells incl. boundary cycles of 12..48 edges" % pc, "mismatch": pbad}
+    results.append(Result("C18.bounded.real_cells_are_closed_polytopes_with_three_planes_per_vertex", "R", "discharged" if pbad is None else "refuted", 0.0, "replay",
+                          "" if pbad is None else repr(pbad), "ConvexCell::build / clip_by_plane through VoronoiIntegrator::build (public API, real crate)",
+                          bounded="%d cells: rings of 12, 24, 33, 40, 48 neighbours with a lid removed in one clip, and 6 x 30 random generators" % pc,
+                          counterexample=pbad, replay={"reproduced": pbad is not None, "mismatch": pbad}))
     results.append(Result("C18.bounded.real_try_extend_and_init_match_functional_spec", "R", "discharged" if bad is None else "refuted", 0.0, "replay",
                           "" if bad is None else repr(bad), UNIT, bounded="6 labels, BFS over reachable states, plus grow/extend sequences up to 200 labels: %d (state, operation) cases" % cases,
                           counterexample=bad, replay={"reproduced": bad is not None, "mismatch": bad}))
